@@ -208,9 +208,15 @@ func (fc *fallbackCache) Set(ctx context.Context, registry string, scheme Scheme
 		return "", err
 	}
 
-	return fc.secondary.Set(ctx, registry, scheme, key, func(ctx context.Context) (string, error) {
+	// The secondary cache may combine this call with a concurrent one for the
+	// same registry that carries a token for other scopes: its return value
+	// is not necessarily the token fetched above.
+	if _, err := fc.secondary.Set(ctx, registry, scheme, key, func(ctx context.Context) (string, error) {
 		return token, nil
-	})
+	}); err != nil {
+		return "", err
+	}
+	return token, nil
 }
 
 // NewSingleContextCache creates a host-based cache for optimizing the auth flow for non-compliant registries.
